@@ -515,3 +515,35 @@ Example C15_retime_nonvacuous :
 Proof.
   cbv zeta. split; [repeat constructor|]. vm_compute. repeat split.
 Qed.
+
+
+(** ---------------------------------------------------------------------------------------------
+    Segments longer than any internal limit of the library (seeded C15-k)
+
+    Every theorem above is for EVERY D = dur_steps tpb duration - 65 536 ticks, 67 200, anything.  What a check of such a
+    segment needs is the closed form at ONE tick: [spec_at] (Sched/InterpAt.v) walks over the control points and subtracts
+    segment lengths instead of building the list. *)
+From Isobar Require Import Sched.InterpAt Generated.TablesPat.
+
+(* for every stream, every n and every tick k < n: what the track does on tick k is [spec_at] at k *)
+Theorem C15_trace_at : forall cospi tpb mode maxc events n k,
+  all_num events -> (k < n)%nat ->
+  nth k (run cospi tpb mode maxc n (init events)) ONone = spec_at cospi tpb mode (eff maxc 0 events) (Z.of_nat k).
+Proof.
+  intros cospi tpb mode maxc events n k Hn Hk. rewrite (run_msg _ _ _ _ _ _ _ Hn Hk). unfold msg.
+  rewrite <- (spec_at_nth cospi tpb mode (eff maxc 0 events) (Z.of_nat k)) by lia. rewrite Nat2Z.id. reflexivity.
+Qed.
+Print Assumptions C15_trace_at.
+
+(* a fade of 140 beats at 480 ticks per beat: 67 200 ticks, more than Pattern.LENGTH_MAX (the constant of the source under
+   test).  Linear 0 -> 100, then 100 -> 50 in a quarter beat, then 50 -> 60 in one beat: the value LENGTH_MAX - 1, LENGTH_MAX and
+   LENGTH_MAX + 1 ticks into the long segment, its end point on tick 67 200, the later points on ticks 67 320 and 67 800, one
+   message on every tick, nothing after the last point *)
+Example C15_long_segment_nonvacuous :
+  let evs := [pt 0 140; pt 100 (1 # 4); pt 50 1; pt 60 1] in
+  let val_at k := match spec_at cos0 480 Linear evs k with OCall (VNum c) (VNum v) (VOpq 1) => Some (Qred v) | _ => None end in
+  dur_steps 480 140 = 67200 /\ LENGTH_MAX <= 67200 /\ span 480 evs = 67800
+  /\ map val_at [0; LENGTH_MAX - 1; LENGTH_MAX; LENGTH_MAX + 1; 67199; 67200; 67201; 67320; 67800; 67801]
+     = [Some 0; Some (Qred (100 * (65535 # 67200))); Some (Qred (100 * (65536 # 67200))); Some (Qred (100 * (65537 # 67200)));
+        Some (Qred (100 * (67199 # 67200))); Some 100; Some (Qred (100 - 50 * (1 # 120))); Some 50; Some 60; None]%Q.
+Proof. vm_compute. repeat split; discriminate. Qed.
